@@ -138,6 +138,24 @@ contract(U + "UserData.getas", props=P, params={"self": "ref:UserData", "convert
                  "result == conv_result(convert, ud_value(self, name)))",
          })
 
+# -- the typed getters are getas with a fixed converter: checked against the getas contract, not its body -----------------
+TYPES = {"int": ("sentinel", 31), "float": ("sentinel", 32), "parse_bool": ("sentinel", 33), "bool": ("sentinel", 34)}
+PRESENT = "ud_has(self, name)"
+VALUE = "ud_value(self, name)"
+for _getter, _conv, _vtype in (("getint", "int", "int"), ("getfloat", "float", "float"), ("getbool", "parse_bool", "bool")):
+    contract(U + "UserData." + _getter, props=P, params={"self": "ref:UserData", "name": "any", "default": "any"},
+             self_classes=["UserData"], result="any", globals=TYPES,
+             assume={"the-converter-is-a-function": "uf_bool('is_callable', %s)" % _conv},
+             raises=[Raises("ValueError", when="%s and not is_a(%s, %s) and conv_fails(%s, %s)" % (PRESENT, VALUE, _vtype, _conv, VALUE),
+                            label="unconvertible-text-of-a-present-name")],
+             ensures={
+                 "a-missing-name-yields-the-given-default": "implies(not %s, result == default)" % PRESENT,
+                 "a-present-value-of-the-getter-type-is-kept":
+                     "implies(%s and is_a(%s, %s), result == %s)" % (PRESENT, VALUE, _vtype, VALUE),
+                 "any-other-present-value-is-converted-by-the-getter-converter":
+                     "implies(%s and not is_a(%s, %s), result == conv_result(%s, %s))" % (PRESENT, VALUE, _vtype, _conv, VALUE),
+             })
+
 # -- pyproject.toml reader: which key each file option is stored under --------------------------------------------------
 oracle("toml_data", ["val"], "val")
 contract("abs:file.enter", trusted=True, pos_params=[], pure=True, doc="open(path, 'rb').__enter__")
@@ -235,11 +253,14 @@ prop("C20", level="other", bounded=[],
                  "configuration file are resolved against that file's directory, in order, whether or not a format option is "
                  "present; UserData.getas returns the default only for a missing name, keeps a present value of the wanted type "
                  "and converts any other present value (also a falsy one), raising ValueError iff that conversion fails; "
+                 "the typed getters getint / getfloat / getbool are checked as callers of that contract (converter int / float / "
+                 "parse_bool, wanted type int / float / bool, the caller's default passed through); "
                  "read_configparser and read_toml_config never store file tags under 'tags' (they go to config_tags, so --tags "
                  "on the command line wins) and return a new dictionary. Bounded: the option table itself (every option x {absent, file, command "
                  "line, both}), configparser / argparse, the values read_toml_config stores, format/outfiles coupling",
      technique="contract-based deductive verification (own VC generator over the real ASTs, z3/cvc5) of the deciding helper "
                "functions; bounded run-time contract stand-in for the option table",
-     notes=["string primitives (strip, split('=', 1), slicing, startswith/endswith) are uninterpreted functions of their arguments",
+     notes=["the converters int, float, parse_bool are callable (assumed in the typed getters; the objects themselves are opaque tokens)",
+            "string primitives (strip, split('=', 1), slicing, startswith/endswith) are uninterpreted functions of their arguments",
             "Configuration.defaults is modelled as one process-wide dictionary object",
             "Configuration.__init__ / load_configuration / read_configuration are not under contract"])
